@@ -19,6 +19,8 @@ struct Op {
     bytes data;                // create: random bytes; load: 32 bytes; decode*: phrase; crypt: password
     std::vector<u64> clock;    // create: readings the clock seam returns, in turn (last one repeats)
     u64 fail = 0;              // bit i set: the i-th allocation request made during this op fails
+    u64 chain = 0;             // decode/decodex: the phrase is what this task's latest polyseed_encode wrote (same coin; decodex: same
+                               // language); load: the image is what its latest polyseed_store wrote. The library's own outputs become inputs.
     u64 reinj = 0;             // non-zero: during the first allocation request of this op the environment calls polyseed_inject
                                // itself (lazy bootstrap): value = 1 + generation*8 + optional-entry bits
     std::string text() const;
@@ -119,6 +121,7 @@ struct Task {
     std::function<void()>* seam_req;
     u32 last_guard;
     void* slots[64];
+    bytes last_phrase; u64 last_phrase_lang, last_phrase_coin; bool have_phrase; bytes last_store; bool have_store;   // latest outputs (for chained operations)
 };
 
 struct Violation {
